@@ -71,6 +71,8 @@ def classes(rng, tier, shard=0, nshards=1, bulk=None):
     add('same-child-x4', lambda: rc.RC('1', (rc.RC('0'),) * 4))
     for i in range(2 if quick else 12):
         add(f'pruned-vs-full-{i}', lambda: pruned_vs_full(rng, rng.choice([3, 8, 20])))
+    # more than 255 cells (2-byte reference indices) in which the inner cells are completely full: 1023 bits and 4 references
+    add('full-cells-300', lambda: gen.wide(300, leaf_bits=lambda i: rc.u(i, 24) + ('1' * 999 if i % 3 == 0 else '01' * 480 if i % 3 == 1 else '')))
     # 2-byte header fields with the top bit set: total cell data between 2^15 and 2^16 bytes
     add('payload-33000', lambda: with_payload(33000, 300))
     add('chain-300', lambda: gen.chain(300))
